@@ -534,11 +534,26 @@ def run(ctx):
             last_is_sort = [m for m in names if m not in ("iterator", "iter", "clone")][-1:] in (["sort"], ["sort_by"])
             ok = src and cmp_name == "transition_document_order" and order == (0, 1) and last_is_sort
             return ok, "transitions of the searched state: %s, sorted by %s%s" % (src, cmp_name, order)
+        # not sorted in the iterated expression: a local Vec that is sorted in place before the loop
+        base, _chain0 = method_chain(fn, t_loop["iter"], follow_lets=False)
         vb = local_of(base)
         if vb is None:
             return False, "transition loop iterates %s: no sort found" % describe(t_loop["iter"])
         let = let_of(fn, vb)
-        fresh = let is not None and hirq.enclosing_loops(fn, let)[:1] == [s_loop] and "init" in let and is_call(peel(let["init"], NO_T), "Vec::new")
+        # filled by pushes into a fresh Vec, or collected: `<transitions of the state>.iterator().map(|tid| get_transition_by_id(*tid)).collect()`
+        collected = False
+        if let is not None and "init" in let:
+            base_i, chain_i = method_chain(fn, let["init"])
+            names_i = [m for m, _ in chain_i]
+            if names_i[-1:] == ["collect"] and names_i.count("map") == 1 and all(m in ("iterator", "iter", "map", "collect") for m in names_i) and \
+                    is_transitions_of_state(base_i):
+                mp = [n for m, n in chain_i if m == "map"][0]
+                cl = peel(mp["a"][0], NO_T)
+                body = peel(cl["body"], NO_T) if cl.get("k") == "closure" else {}
+                collected = is_call(body, ALG + "get_transition_by_id") and len(cl.get("params", [])) == 1 and \
+                    local_of(body["a"][0]) == cl["params"][0].get("b")
+        fresh = let is not None and hirq.enclosing_loops(fn, let)[:1] == [s_loop] and "init" in let and \
+            (is_call(peel(let["init"], NO_T), "Vec::new") or collected)
         uses = local_uses(fn, vb)
         ev = [n for r, n in uses if r == "recv"]
         rest = [n for r, n in uses if r in ("other", "assign")]
@@ -546,7 +561,7 @@ def run(ctx):
         if not ev or ev[-1]["m"] not in ("sort_by", "sort_unstable_by"):
             return False, "local list %s is not sorted last before being searched (%s)" % (describe(base), [e["m"] for e in ev])
         cmp_name, order = comparator_of(fn, ev[-1])
-        src = True
+        src = collected or len(ev) > 1
         for e in ev[:-1]:
             good = e["m"] == "push"
             if good:
@@ -824,6 +839,36 @@ def run(ctx):
 
     def r5():
         fn = F.fn(ALG + "microstep")
+        if not F.has_fn(ALG + "executeTransitionContent"):
+            # the three-line procedure was inlined: its loop `for t in enabledTransitions: executeContent(t)` stands between the two calls
+            loops = []
+            for lp in fn.nodes("for"):
+                base, chain = method_chain(fn, lp["iter"])
+                if param_index(fn, base) == 2 and all(m in ("iterator", "iter") for m, _ in chain) and fn.calls(ALG + "executeContent", root=lp["body"]):
+                    loops.append(lp)
+            ctx.exact("R02.5", "inlined executeTransitionContent loops in microstep", len(loops), 1)
+            ex_c, en_c = fn.calls(ALG + "exitStates"), fn.calls(ALG + "enterStates")
+            ctx.exact("R02.5", "exitStates call sites in microstep", len(ex_c), 1)
+            ctx.exact("R02.5", "enterStates call sites in microstep", len(en_c), 1)
+            if len(loops) != 1 or len(ex_c) != 1 or len(en_c) != 1:
+                return
+            idx5 = hirq.order_index(fn)
+            lp = loops[0]
+            same_path = all(not hirq.enclosing_loops(fn, x) and not hirq.guards(fn, x) for x in (ex_c[0], lp, en_c[0]))
+            order = idx5[id(ex_c[0])] < idx5[id(lp)] < idx5[id(en_c[0])]
+            lv = lp["pat"].get("b")
+            content_ok = True
+            for c in fn.calls(ALG + "executeContent", root=lp["body"]):
+                f = hirq.field_of(hirq.resolve(fn, c["a"][1]), NO_T)
+                src = expr_of(fn, f[0]) if f else None
+                content_ok = content_ok and bool(f) and f[1] == "content" and is_call(src, ALG + "get_transition_by_id") and local_of(src["a"][0]) == lv
+            ctx.ob("R02.5", site_key(fn, "exit, then transition content, then entry"), same_path and order and content_ok, line_of(lp),
+                   "unconditional and outside loops: %s; exitStates < content loop < enterStates: %s; runs the content of each enabled transition: %s" % (
+                       same_path, order, content_ok))
+            for nm, cs in (("exitStates", ex_c), ("enterStates", en_c)):
+                ok = param_index(fn, cs[0]["a"][1]) == 2
+                ctx.ob("R02.5", site_key(fn, nm + " gets enabledTransitions"), ok, line_of(cs[0]), "argument %s" % describe(cs[0]["a"][1]))
+            return
         names = ("exitStates", "executeTransitionContent", "enterStates")
         blocks = []
         for nm in names:
